@@ -7,8 +7,12 @@ def run(ck):
     asan = ck.build("asan", ["sess_hist"])["sess_hist"]
     thorough = ck.tier == "thorough"
     worlds = int((15000 if thorough else 60) * ck.scale)
-    jobs = [dict(exe=asan, args=["--worlds", worlds, "--requests", [60, 150, 300][i % 3], "--seed", sa.subseed(ck, i), "--dir", os.path.join(ck.rundir, "s%d" % i)],
-                 label="hist%d" % i, timeout=14400) for i in range(16)]
+    # a process hosts at most 400 worlds: every network-storage world leaves thread-specific keys behind in the driver thread
+    # (booster keeps a key until the threads that used it end) and a process has only 1024 of them
+    per_job = min(worlds, 400)
+    njobs = 16 * max(1, (worlds + per_job - 1) // per_job)
+    jobs = [dict(exe=asan, args=["--worlds", per_job, "--requests", [60, 150, 300][i % 3], "--seed", sa.subseed(ck, i), "--dir", os.path.join(ck.rundir, "s%d" % i)],
+                 label="hist%d" % i, timeout=14400) for i in range(njobs)]
     sa.run_jobs(ck, jobs, sets=("worlds",))
     ck.assumptions += [
         "the deadline is modelled as an interval: exact after a save that had to happen (new session, changed data), widened by the documented 10 % rule when an unchanged renew/browser session may or may not have been re-saved; "
